@@ -43,6 +43,21 @@ type Rec struct {
 	Names  []string `json:"names"`
 	Vals   []int    `json:"vals"`
 	Feat   []string `json:"feat"`
+	// what the helper returned, as returned: copied into Bytes / Msgs only when the records are written, after ALL calls of the
+	// run (a program builds several messages before it sends any of them: an earlier result must survive later calls)
+	heldBt   []byte
+	heldMsgs []midi.Message
+}
+
+func (r *Rec) finish() {
+	if r.Kind == "ok" {
+		r.Bytes = cp(r.heldBt)
+		r.Msgs = []hx.B{}
+		for _, m := range r.heldMsgs {
+			r.Msgs = append(r.Msgs, cp(m))
+		}
+	}
+	r.heldBt, r.heldMsgs = nil, nil
 }
 
 func cp(b []byte) hx.B { return append(hx.B{}, b...) }
@@ -145,9 +160,19 @@ func execute(r *Rec) {
 		r.Kind, r.Msg = "panic", p
 		return
 	}
-	r.Bytes = cp(bt)
-	for _, m := range msgs {
-		r.Msgs = append(r.Msgs, cp(m))
+	r.heldBt, r.heldMsgs = bt, msgs
+	if r.H == "mmc.goto" { // a fresh mmc.GoTo parsing the built bytes
+		g := mmc.GoTo{DeviceID: by(0) ^ 0x55, Hour: 0x55, Minute: 0x55, Second: 0x55, Frame: 0x55, SubFrame: 0x55}
+		var err error
+		pp := hx.Catch(func() { err = g.Parse(append([]byte(nil), bt...)) })
+		switch {
+		case pp != "":
+			r.PKind, r.Msg = "panic", pp
+		case err != nil:
+			r.PKind, r.Msg = "error", err.Error()
+		default:
+			r.PKind, r.Vals = "ok", []int{int(g.DeviceID), int(g.Hour), int(g.Minute), int(g.Second), int(g.Frame), int(g.SubFrame)}
+		}
 	}
 	if r.H == "mmc.identity" {
 		var g mmc.Identity
@@ -385,6 +410,7 @@ func gen(args []string) {
 func write(path string, recs []*Rec) {
 	w := hx.Create(path)
 	for _, r := range recs {
+		r.finish()
 		w.Put(r)
 	}
 	w.Close()
